@@ -274,19 +274,19 @@ func mkSteps(content string, steps ...step) *writerCase {
 	return cs
 }
 
-func msgsOf(cs *writerCase, z bool, seed int) ([]wireMsg, [][]byte) {
+func msgsOf(cs *writerCase, z bool, seed int) ([]wireMsg, []wantMsg) {
 	var ms []wireMsg
-	var want [][]byte
+	var want []wantMsg
 	for k := range cs.Steps {
 		st := &cs.Steps[k]
-		ms = append(ms, wireMsg{T: st.T, Size: st.Size, Z: z})
-		want = append(want, payload(cs, st, seed))
+		ms = append(ms, wireMsg{T: st.T, Size: st.Size, Z: z, NL: st.API == "JS"})
+		want = append(want, wantMsg{payload(cs, st, seed), st.API == "JS"})
 	}
 	return ms, want
 }
 
 // checkStream tokenises what one endpoint wrote, emits the session and compares the independent reassembly.
-func checkStream(c *rp.Ctx, who, role string, wire []byte, msgs []wireMsg, want [][]byte) (int, error) {
+func checkStream(c *rp.Ctx, who, role string, wire []byte, msgs []wireMsg, want []wantMsg) (int, error) {
 	frames, junkAt := tokenize(wire)
 	body, indep := records(frames, junkAt, len(wire), want)
 	s := emitSession(c, "wswire", role, msgs, body)
@@ -414,7 +414,7 @@ func runUpgrade(c *rp.Ctx, i int, cs *hsCase) rp.Result {
 	}
 	msgs, want := msgsOf(script, cs.Z, c.Seed)
 	msgs = append(msgs, wireMsg{T: 1, Size: len(hello), Z: cs.Z})
-	want = append(want, hello)
+	want = append(want, wantMsg{hello, false})
 	s, err := checkStream(c, "the upgraded server connection", "server", wire, msgs, want)
 	if err != nil {
 		return rp.Fail(i, "%v (%s)", err, desc)
